@@ -47,7 +47,7 @@ def sampleCands (cands : List Pos) (idxs : List Nat) : Except Err (List Pos) :=
 
 /-- the acquisition vector and its descending order over the candidates `pc`: the first row -/
 def pickByAcq (pc : List Pos) : Tape → Except Err (Pos × Tape)
-  | .spiral acq :: .sorted perm :: rest =>
+  | .vec acq :: .sorted perm :: rest =>
     if acq.length ≠ pc.length then .error (protocol "acquisition-length")
     else if ¬ sortedDesc acq perm then .error (protocol "argsort-not-descending")
     else
@@ -58,7 +58,7 @@ def pickByAcq (pc : List Pos) : Tape → Except Err (Pos × Tape)
         | some p => .ok (p, rest)
         | none => .error .indexError
   | [] => .error .needMore
-  | [.spiral _] => .error .needMore
+  | [.vec _] => .error .needMore
   | _ => .error (protocol "_expected_improvement")
 
 /-- the model-based proposal: (sub)sample the candidates - the surrogate model refuses an empty array with ValueError
